@@ -71,6 +71,15 @@ func vfC16(w *vfWorld) {
 		cfg.Extra = append(cfg.Extra, "--redirect-url=http://app.sim/oauth2/callback")
 	}
 	cfg.Extra = append(cfg.Extra, "--set-xauthrequest=true")
+	// the browser reaches the proxy over TLS in a third of the worlds (req.TLS set); force-https makes the
+	// scheme of the request part of the decision, and with reverse-proxy off only the connection may decide it
+	if t.Prob("c16.tls", 350) {
+		cfg.Scheme = "https"
+		cfg.CookieSecure = t.Bool("c16.secure")
+	}
+	if t.Prob("c16.forcehttps", 300) {
+		cfg.Extra = append(append(cfg.Extra, "--force-https=true"), w.TLSFrontArgs()...)
+	}
 	w.StartIdP()
 	reps := w.Standard(cfg, 1)
 	rep := reps[0]
